@@ -430,9 +430,11 @@ class Statement(TokenList):
             # DML keyword (e.g. SELECT, INSERT) will follow next.
             tidx = self.token_index(token)
             while tidx is not None:
-                tidx, token = self.token_next(tidx, skip_ws=True)
+                tidx, token = self.token_next(tidx, skip_ws=True,
+                                              skip_cm=True)
                 if isinstance(token, (Identifier, IdentifierList)):
-                    tidx, token = self.token_next(tidx, skip_ws=True)
+                    tidx, token = self.token_next(tidx, skip_ws=True,
+                                                  skip_cm=True)
 
                     if token is not None \
                             and token.ttype == T.Keyword.DML:
